@@ -279,7 +279,7 @@ func (so *Sorts) Zero(t types.Type) *Term {
 			args = append(args, so.Zero(u.Field(i).Type()))
 		}
 		if len(args) == 0 {
-			return tb.Const("mk_"+srt, srt)
+			return tb.App("mk_"+srt, srt) // nullary constructor of the datatype (not a declared constant)
 		}
 		return tb.App("mk_"+srt, srt, args...)
 	}
